@@ -157,6 +157,20 @@ def run_case(case):
                     if abs(k) <= 500:
                         J = np.array([[sgn * v, 0.0], [1.0, sgn * v]])
                         check_gradjac(Scaling.from_grad_jac(vals.copy(), sps.coo_matrix(J)), vals, J, bad, at)
+            if 1 <= k <= 52:
+                # the same values as INTEGER arrays (nominal values written as ints, integer-valued gradients and Jacobians)
+                for iv in (2 ** k, 2 ** k - 1, 2 ** k + 1, 3 * 2 ** (k - 1)):
+                    ivals = np.array([iv, 1], dtype=np.int64)
+                    at = {"value": int(iv), "k": k, "dtype": "int64"}
+                    stats["inputs"] += 1
+                    sc = Scaling.from_nominal_values(ivals.copy(), ivals[::-1].copy())
+                    for name, raw, wts in (("var", ivals, sc.var_weights), ("cons", ivals[::-1], sc.cons_weights)):
+                        scd = np.ldexp(raw.astype(float), np.asarray(wts))
+                        for j in range(2):
+                            if not in12(scd[j]):
+                                bad("nominal_" + name, f"scaled nominal {name} value {scd[j]!r} not in [1,2) (raw integer {int(raw[j])})", at)
+                    Ji = np.array([[iv, 0], [1, iv]], dtype=np.int64)
+                    check_gradjac(Scaling.from_grad_jac(ivals.copy(), sps.coo_matrix(Ji)), ivals.astype(float), Ji.astype(float), bad, at)
         key = f"edges|{case['k0']}"
     elif kind == "gradjac":
         m, n = case["m"], case["n"]
